@@ -204,7 +204,10 @@ class Repo:
         return ci
 
     def lookup(self, key) -> FuncInfo:
-        """key = 'relpath::qualname' (qualname = func | Class.method | func.<nested>)."""
+        """key = 'relpath::qualname' (qualname = func | Class.method | func.<nested>). A contract target may carry a
+        view tag, 'relpath::qualname~tag': an ADDITIONAL contract on the same function, verified against the body as
+        its own unit; call sites always apply the untagged contract (REGISTRY is keyed by the full target string)."""
+        key = key.split("~")[0]
         relpath, qual = key.split("::")
         m = self.module(relpath)
         parts = qual.split(".")
